@@ -248,6 +248,15 @@ def apply_op(doc, sheet, tb, op):
         tb.caption_enabled = op[1]
     elif k == "name_en":
         tb.table_name_enabled = op[1]
+    elif k == "addtable":   # a further table on the scripted table's sheet, placed by the library (no coordinates) or at x, y
+        kw = {} if op[1] is None else {"x": op[1][0], "y": op[1][1]}
+        sheet.add_table(num_rows=op[2], num_cols=op[3], **kw)
+    elif k == "addrow":
+        tb.add_row(op[1])
+    elif k == "delrow":
+        tb.delete_row(op[1])
+    elif k == "addcol":
+        tb.add_column(op[1])
 
 
 def build(spec):
@@ -312,8 +321,28 @@ def history(sub: Ctx, seed: int, h: int, fixture):
     if nr == 0 or nc == 0 or nr * nc > 1500:
         return []
     script = gen_script(rng, nr, nc, heavy=not fixture)
+    structural = False
     if test._model.is_a_pivot_table(tb_t._table_id):
         script = []  # Document.save leaves pivot tables as they are and says so (UnsupportedWarning)
+    elif not fixture and rng.random() < 0.3:
+        # tail: a table is added below (placed by the library, or at coordinates) and THEN the table above changes its
+        # height (rows added / removed / resized), or the other way round; positions are read before the save (twin) and
+        # after the reopen.  The size / label model lines are not emitted for these histories (oracle only).
+        structural = True
+        # strokes are left out of these histories: a row / column added next to a stroked edge is the recorded finding
+        # `size-changes-on-reopen-after-add-next-to-stroke` (fixed scenario `stroke-then-add-row`)
+        script = [op for op in script if op[0] != "stroke"]
+        hdr = max([op[1] for op in script if op[0] == "hdr_rows"] + [tb_t.num_header_rows])
+        grow = [["addrow", rng.randint(1, 6)], ["rowh", rng.randrange(min(nr, hdr + 1)), rng.randint(40, 150)],
+                ["addcol", rng.randint(1, 2)]]   # (a row that no `delrow` of the tail removes)
+        if nr - hdr >= 3:
+            grow.append(["delrow", rng.randint(1, nr - hdr - 1)])
+        t1 = ["addtable", None if rng.random() < 0.7 else [float(rng.choice([0, 40])), float(rng.choice([300, 512.5]))],
+              rng.randint(2, 5), rng.randint(2, 4)]
+        tail = [t1, rng.choice(grow)] if rng.random() < 0.7 else [rng.choice(grow), t1]
+        if rng.random() < 0.4:
+            tail += [["addtable", None, 2, 2], rng.choice(grow[:2])]
+        script = script + tail
     queried = rng.random() < 0.5
     ncycles = rng.choice([1, 1, 2, 3]) if not fixture else rng.choice([1, 2])
     inp = {"seed": seed, "history": h, **spec, "table": list(tpos), "script": script, "queried_before_save": queried,
@@ -369,6 +398,11 @@ def history(sub: Ctx, seed: int, h: int, fixture):
         elif k == "readcol":
             cols.op("R", op[1])
             cols.out(tb_t.col_width(op[1]))
+        elif k in ("addtable", "addrow", "addcol"):
+            pass
+        elif k == "delrow":
+            for i in [i for i in set_rows if i >= tb_t.num_rows]:
+                del set_rows[i]
         elif k in ("hdr_rows", "hdr_cols", "cap_en", "name_en"):
             lab_ops += [{"hdr_rows": "hr", "hdr_cols": "hc", "cap_en": "ce", "name_en": "ne"}[k],
                         str(int(op[1])) if k.startswith("hdr") else ("1" if op[1] else "0")]
@@ -429,7 +463,10 @@ def history(sub: Ctx, seed: int, h: int, fixture):
                 "the first save", set_rows, set_cols, tpos)
     sub.count("histories: every observable of every table vs the twin, after each save/reopen cycle", 1)
     lines = []
-    if ok:
+    if structural:
+        sub.count("histories with a table added below the scripted table and the table above resized / grown / shrunk "
+                  "afterwards (or before): positions and sizes of every table before the save vs after reopen", 1)
+    if ok and not structural:
         lines = [rows.line(), cols.line(),
                  (" ".join(["labels", "run"] + lab_words + lab_ops), "ok " + " ; ".join(lab_outs))]
         nontrivial = bool(script) or any(s != 0 for _, s in stored_axis(twin, tb_w, True)[2])
@@ -479,6 +516,22 @@ def scenario(name):
         if len(set(seq)) != 1:
             return ("row-height-changes-on-reopen", "3 pt borders on the top and left of B2, then three save/reopen cycles: "
                     f"(row_height(1), col_width(1), height, width) = {seq}")
+    elif name == "stroke-then-add-row":
+        doc = Document(num_rows=5, num_cols=3)
+        tb = doc.sheets[0].tables[0]
+        tb.set_cell_border(4, 0, "bottom", Border(4.0, RGB(0, 0, 0), "solid"), 1)
+        tb.set_cell_border(0, 2, "right", Border(4.0, RGB(0, 0, 0), "solid"), 1)
+        tb.add_row(2)
+        tb.add_column(1)
+
+        def sizes(t):
+            return ([t.row_height(i) for i in range(t.num_rows)], [t.col_width(i) for i in range(t.num_cols)], t.height, t.width)
+        before = sizes(tb)
+        after = sizes(cycle(doc).sheets[0].tables[0])
+        if before != after:
+            return ("size-changes-on-reopen-after-add-next-to-stroke",
+                    "4 pt borders on the bottom of A5 (last row) and the right of C1 (last column), then add_row(2), add_column(1): "
+                    f"(row heights, column widths, height, width) before the save {before}, after reopen {after}")
     elif name == "set-then-border":
         doc = Document()
         tb = doc.sheets[0].tables[0]
@@ -512,7 +565,8 @@ def scenario(name):
     return None
 
 
-SCENARIOS = ["issue-69b-unqueried", "border-drift", "set-then-border", "border-then-set", "caption-on-old-document"]
+SCENARIOS = ["issue-69b-unqueried", "border-drift", "set-then-border", "border-then-set", "caption-on-old-document",
+             "stroke-then-add-row"]
 
 
 def _scenario_worker(task):
